@@ -115,6 +115,74 @@ def run(ctx):
                                                              'thread-local _OPTIONS', n.lineno)
     ctx.ok('R20.2', 'no run-time reader of _GLOBAL_OPTIONS_W_DEFAULTS outside _ThreadOptions.__init__')
 
+    # ---- R20.11 ------------------------------------------------------------------------------------------------------
+    ctx.rule('R20.11', 'the per-thread option store is dereferenced at call time only: no reference to _OPTIONS in a default-argument value, '
+                       'decorator, class body or module-level statement (evaluated once, at import, in the importing thread)', 4)
+
+    def import_time_refs(tree):
+        """(Name node, where) for loads of `_OPTIONS` that are evaluated when the module is imported."""
+        out, n_run = [], 0
+
+        def names(e):
+            return [x for x in ast.walk(e) if isinstance(x, ast.Name) and x.id == '_OPTIONS' and isinstance(x.ctx, ast.Load)]
+
+        def scan(stmts, where):
+            nonlocal n_run
+            for st in stmts:
+                if isinstance(st, (ast.FunctionDef, ast.AsyncFunctionDef)):
+                    a = st.args
+                    for d in list(a.defaults) + [k for k in a.kw_defaults if k is not None] + list(st.decorator_list):
+                        out.extend((x, f'default value / decorator of {st.name}()') for x in names(d))
+                    for b in st.body:
+                        n_run += len(names(b)) - sum(len(names(d)) for f in ast.walk(b) if isinstance(f, (ast.FunctionDef, ast.AsyncFunctionDef, ast.Lambda))
+                                                     for d in list(f.args.defaults) + [k for k in f.args.kw_defaults if k is not None])
+                        # defaults of nested functions / lambdas are evaluated when the enclosing function runs: call time, fine
+                elif isinstance(st, ast.ClassDef):
+                    for d in st.decorator_list + st.bases:
+                        out.extend((x, f'class header of {st.name}') for x in names(d))
+                    scan(st.body, f'class body of {st.name}')
+                elif isinstance(st, (ast.If, ast.Try, ast.With, ast.For, ast.While)):
+                    for fld in ('test', 'iter'):
+                        if getattr(st, fld, None) is not None:
+                            out.extend((x, where) for x in names(getattr(st, fld)))
+                    for fld in ('body', 'orelse', 'finalbody'):
+                        scan(getattr(st, fld, []) or [], where)
+                    for h in getattr(st, 'handlers', []) or []:
+                        scan(h.body, where)
+                else:
+                    if isinstance(st, ast.Assign) and norm(st.targets[0]) == '_OPTIONS':
+                        continue
+                    for x in names(st):
+                        # a lambda body at module level is deferred; its defaults are not
+                        out.append((x, where))
+        scan(tree.body, 'module level')
+        return out, n_run
+    total_run = 0
+    for mname, m in repo.modules.items():
+        refs, n_run = import_time_refs(m.tree)
+        total_run += n_run
+        par = None
+        for x, where in refs:
+            # inside a module-level lambda *body* the name is looked up at call time
+            par = par or {c: p for p in ast.walk(m.tree) for c in ast.iter_child_nodes(p)}
+            cur, deferred = x, False
+            while cur in par:
+                p_ = par[cur]
+                if isinstance(p_, ast.Lambda) and cur is p_.body:
+                    deferred = True
+                    break
+                cur = p_
+            if deferred:
+                total_run += 1
+                continue
+            ctx.bad('R20.11', mname, '<module>', f'_OPTIONS in {where}: {norm(par[x], 60)}',
+                    'the thread-local option store is dereferenced while the module is imported: the value (or the __dict__) captured belongs to the '
+                    'importing thread, every other thread reads and writes that thread\'s defaults through it', x.lineno)
+    for i in range(total_run):
+        ctx.ok('R20.11', f'call-time reference #{i + 1} to _OPTIONS', sample={'call_time_references': total_run})
+    if total_run < 3:
+        raise AnalysisError(f'only {total_run} call-time references to _OPTIONS found')
+
     # ---- R20.3 -------------------------------------------------------------------------------------------------------
     ctx.rule('R20.3', 'set_options(): check_options(options, False) and the complete old-value lookup dominate the update; '
                       'no statement after the update can raise', 3)
